@@ -269,6 +269,12 @@ func c14run(cs *c14case, r *rng, steps int, scripted []uint64) (events []uint64,
 		}
 		t, vt, vc := stable.Triple()
 		if st.Term != t && !termWarned {
+			// persist-then-set is two steps of the main goroutine: look again after a pause before believing a difference
+			time.Sleep(5 * time.Millisecond)
+			st = rr.VerifNodeState()
+			t, vt, vc = stable.Triple()
+		}
+		if st.Term != t && !termWarned {
 			// the term a server acts in is always the one it has durably recorded (setCurrentTerm persists first):
 			// otherwise a restart resumes in an older term than the one it voted and acknowledged entries in
 			termWarned = true
